@@ -557,9 +557,12 @@ Lemma client_validate_trust_level cs :
   (cs_tl_num cs < 9223372036854775808)%N /\ (cs_tl_den cs < 9223372036854775808)%N /\
   (0 < cs_tl_den cs)%N /\ (cs_tl_den cs <= 3 * cs_tl_num cs)%N /\ (cs_tl_num cs <= cs_tl_den cs)%N.
 Proof.
-  unfold client_validate, client_validate_with, trust_level_valid. intro H.
+  unfold client_validate, client_validate_with. intro H.
   repeat (apply andb_true_iff in H as [H ?]).
-  match goal with X : negb _ = true |- _ => apply negb_true_iff in X; apply orb_false_iff in X as [X Z0]; apply orb_false_iff in X as [X1 X2] end.
+  match goal with X : trust_level_valid _ _ && _ && _ = true |- _ =>
+    apply andb_true_iff in X as [X Hd]; apply andb_true_iff in X as [X Hn]; rename X into Hv end.
+  apply N.leb_le in Hd, Hn. unfold trust_level_valid in Hv.
+  apply negb_true_iff in Hv. apply orb_false_iff in Hv as [Hv Z0]. apply orb_false_iff in Hv as [X1 X2].
   apply N.ltb_ge in X1, X2. apply N.eqb_neq in Z0.
   assert (M : ((cs_tl_num cs * 3) mod two64N <= cs_tl_num cs * 3)%N) by (apply N.mod_le; unfold two64N; lia).
   lia.
